@@ -167,7 +167,11 @@ func scalarElem[S emulated.FieldParams](v *big.Int) (emulated.Element[S], bool) 
 	var fp S
 	w := fp.BitsPerLimb()
 	n := int(fp.NbLimbs())
-	if v.Sign() < 0 || v.BitLen() > n*int(w) {
+	// emulated.Field range-checks a witness element to the width of the modulus
+	// (top limb: ((bits(modulus)-1) mod w)+1 bits, enforceWidth(a, true)); the
+	// test engine only looks at the width of the single limbs, so a wider value
+	// would be an input that no compiled circuit accepts
+	if v.Sign() < 0 || v.BitLen() > n*int(w) || v.BitLen() > fp.Modulus().BitLen() {
 		return emulated.Element[S]{}, false
 	}
 	mask := new(big.Int).Sub(new(big.Int).Lsh(big.NewInt(1), w), big.NewInt(1))
